@@ -102,7 +102,7 @@ class Run:
             while evs[i]["ev"] != "reset":
                 i -= 1
             reset = evs[i]
-            sig = signature(ctx.prop, cfgname(cfg), dict(ev, via=ev.get("via", reset.get("via"))), text)
+            sig = signature(ctx.prop, cfgname(cfg), dict(ev, via=reset.get("cl") or ev.get("via", reset.get("via"))), text)
             leg = reset.get("leg")
             hist = None
             if leg in self.hists and self.hists[leg] is not None:
@@ -110,7 +110,7 @@ class Run:
             job = dict(jobs.get(leg, {}))
             what = "line %d: %s ; protocol allows %s" % (
                 line, json.dumps({k: v for k, v in ev.items() if k not in ("seq", "detail", "cursor")})[:300], text[:300])
-            replay = {"property": ctx.prop, "store": cfg[0], "index": cfg[1], "via": reset.get("via"), "root": reset.get("root"),
+            replay = {"property": ctx.prop, "store": cfg[0], "index": cfg[1], "via": reset.get("cl") or reset.get("via"), "root": reset.get("root"),
                       "leg": leg, "h": reset.get("h"), "history": hist, "seed": seed, "job": job, "signature": sig,
                       "event": {k: v for k, v in ev.items() if k != "detail"}}
             ctx.discrepancy(sig, what[:700], replay)
@@ -285,8 +285,9 @@ def run(ctx, replay):
             ms, ss, rn = (32, 32, 30) if slow else (2, 8, 150)
         jobs = {
             "mut": {"hist": mutf, "observe": True, "stride": ms, "offset": k % ms, "n": 4},
-            "sim": {"hist": simf, "observe": False, "stride": ss, "offset": k % ss, "n": 4},
-            "rnd": {"random": rn, "rlen": 40, "n": 8, "univ": "std"},
+            # "clienthc": a fresh pkg/client with a have-cache (as pk-put's) per history
+            "sim": {"hist": simf, "observe": False, "stride": ss, "offset": k % ss, "n": 4, "vias": ["client", "raw", "clienthc"]},
+            "rnd": {"random": rn, "rlen": 40, "n": 8, "univ": "std", "vias": ["client", "raw", "clienthc"]},
             "extra": {"univ": "thr", "n": 8},
             "big": {"univ": "tiny", "n": 260},
         }
